@@ -166,6 +166,12 @@ impl C17 {
         if same_base {
             rep.count("gen.same_base_name_layout", 1);
         }
+        // some or all parameter files are reached through symbolic links (a mounted config
+        // map, a stow / nix tree): `params/..` holds the link, `store/..` the content
+        let linked = r.below(6);
+        if linked < 2 {
+            rep.count("gen.symlinked_parameter_files", 1);
+        }
         for p in 1..=nparams {
             let fmt = *r.pick(&[DocFmt::JsonPretty, DocFmt::YamlBlock, DocFmt::JsonCompact]);
             // an empty parameter file would be rejected as "empty" — keep at least `{}`
@@ -173,7 +179,14 @@ impl C17 {
             // different sub-directories (common/params.json, prod/params.json)
             let rel = if same_base { format!("params/s{}/params.json", p) } else { format!("params/p{}.{}", p, fmt.ext()) };
             let fmt = if same_base { DocFmt::JsonPretty } else { fmt };
-            files.push(FileSpec { rel: rel.clone(), bytes: doc::render(&parts[p], fmt).into_bytes(), mtime_ns: 0 });
+            if linked == 0 || (linked == 1 && p == nparams) {
+                let store = format!("store/{}", rel.trim_start_matches("params/"));
+                let up = "../".repeat(rel.matches('/').count());
+                files.push(FileSpec { rel: store.clone(), bytes: doc::render(&parts[p], fmt).into_bytes(), mtime_ns: 0 });
+                files.push(FileSpec { rel: format!("{} -> {}{}", rel, up, store), bytes: vec![], mtime_ns: 0 });
+            } else {
+                files.push(FileSpec { rel: rel.clone(), bytes: doc::render(&parts[p], fmt).into_bytes(), mtime_ns: 0 });
+            }
             params.push(rel);
         }
         for (i, f) in files.iter_mut().enumerate() {
@@ -234,7 +247,7 @@ impl C17 {
                 if r.chance(1, 8) {
                     // the same parameter file once more (only meaningful if it defines a key)
                     let i = r.usize(scn.params.len());
-                    let nonempty = scn.files.iter().find(|f| f.rel == scn.params[i]).map(|f| f.bytes.iter().any(|b| *b == b':')).unwrap_or(false);
+                    let nonempty = scn.files.iter().find(|f| f.rel == scn.params[i] || f.rel == format!("store/{}", scn.params[i].trim_start_matches("params/"))).map(|f| f.bytes.iter().any(|b| *b == b':')).unwrap_or(false);
                     if nonempty {
                         argv.push("-i".into());
                         argv.push(format!("@/{}", scn.params[i]));
